@@ -1028,6 +1028,14 @@ func TestReplay(t *testing.T) {
 			vs, _, _ := CheckColumn(c)
 			return vs
 		},
+		"TestPoisonRealCallbacks": func(raw json.RawMessage) hx.Vs {
+			var c ColCase
+			if err := json.Unmarshal(raw, &c); err != nil {
+				return hx.Vs{{Sig: "harness:decode", Msg: err.Error()}}
+			}
+			vs, _, _ := CheckRealCallbacks(c)
+			return vs
+		},
 		"TestPoisonTranslator": func(raw json.RawMessage) hx.Vs {
 			var c TrCase
 			if err := json.Unmarshal(raw, &c); err != nil {
